@@ -43,6 +43,7 @@ REPLAYS = os.path.join(VERIF_ROOT, "replays")
 EVIDENCE = os.path.join(VERIF_ROOT, "evidence")
 
 _SCRATCH = None
+_SCRATCH_PID = None
 
 
 def reexec_with_hashseed(hashseed="0"):
@@ -77,8 +78,9 @@ def repo_root():
 
 def scratch_dir():
     """Create (once per process) and chdir into a private scratch directory."""
-    global _SCRATCH
-    if _SCRATCH is None or not os.path.isdir(_SCRATCH):
+    global _SCRATCH, _SCRATCH_PID
+    if _SCRATCH is None or _SCRATCH_PID != os.getpid() or not os.path.isdir(_SCRATCH):
+        _SCRATCH_PID = os.getpid()
         base = os.path.join(VERIF_ROOT, ".scratch")
         os.makedirs(base, exist_ok=True)
         _SCRATCH = os.path.join(base, "p%d" % os.getpid())
